@@ -40,8 +40,8 @@ LIMIT = 400
 
 def plan(tier):
     if tier == "quick":
-        return dict(shards=16, examples=32, time_budget_s=900, min_nontrivial=10, shrink_cap_s=150)
-    return dict(shards=16, examples=640, time_budget_s=3500, min_nontrivial=300)
+        return dict(shards=16, examples=32, time_budget_s=900, min_nontrivial=4, shrink_cap_s=150)
+    return dict(shards=16, examples=640, time_budget_s=3500, min_nontrivial=120)
 
 
 def strategy(tier, shard):
